@@ -326,14 +326,55 @@ inline int harnessMain(int argc, char** argv, const Harness& H) {
     }
   };
 
+  // writes the fail file and the statistics; returns the process exit code
+  auto finish = [&]() -> int {
+    double wall = std::chrono::duration<double>(std::chrono::steady_clock::now() - t0).count();
+    if (failed && !failPath.empty()) {
+      js::Value f = js::Value::object();
+      f.set("property", H.property);
+      f.set("why", failWhy);
+      f.set("case", caseToJson(failCase));
+      js::writeFile(failPath, js::dump(f));
+    }
+    if (!outPath.empty()) {
+      js::Value o = js::Value::object();
+      o.set("property", H.property);
+      o.set("part", part->name);
+      o.set("mode", mode);
+      o.set("cases", ST.cases);
+      o.set("discards", ST.discards);
+      o.set("evaluations", ST.evaluations);
+      o.set("nontrivial", ST.nontrivial);
+      o.set("exhaustive", exhaustive);
+      o.set("failed", failed);
+      o.set("why", failWhy);
+      o.set("wall_s", wall);
+      js::Value cs = js::Value::object();
+      for (auto& kv : ST.counters) cs.set(kv.first, kv.second);
+      o.set("counters", cs);
+      js::Value kn = js::Value::object();
+      for (auto& kv : ST.known) kn.set(kv.first, kv.second);
+      o.set("known", kn);
+      js::Value sm = js::Value::array();
+      for (auto& s : ST.samples) sm.push(js::parse(s));
+      o.set("samples", sm);
+      js::Value hs = js::Value::array();
+      for (auto h : ST.ntHashes) { char b[20]; snprintf(b, sizeof b, "%016" PRIx64, h); hs.push(std::string(b)); }
+      o.set("nt_hashes", hs);
+      js::writeFile(outPath, js::dump(o));
+    }
+    return failed ? 1 : 0;
+  };
+
   if (mode == "run") {
     bool ok = rc::check(H.property + "/" + part->name, [&]() {
+      // bound the shrink phase: 20 s after the first failure the best failing case found so far is written out and the
+      // worker ends (rapidcheck offers no way to stop shrinking, and generating every further candidate can take minutes)
+      if (failed && std::chrono::duration<double>(std::chrono::steady_clock::now() - tFail).count() > 20.0) { int rc = finish(); fflush(nullptr); _exit(rc); }
       Case c = part->gen();
       c.part = part->name;
       std::string rendered;
       if (g_scratchFd >= 0) { rendered = js::dump(caseToJson(c)); writeScratch(rendered); }
-      // bound the shrink phase: 20 s after the first failure further candidates are not evaluated any more
-      if (failed && std::chrono::duration<double>(std::chrono::steady_clock::now() - tFail).count() > 20.0) return;
       Verdict vd = part->judge(c);
       if (!failed) account(c, vd, rendered);
       if (!vd.ok) {
@@ -364,40 +405,5 @@ inline int harnessMain(int argc, char** argv, const Harness& H) {
     return 3;
   }
 
-  double wall = std::chrono::duration<double>(std::chrono::steady_clock::now() - t0).count();
-  if (failed && !failPath.empty()) {
-    js::Value f = js::Value::object();
-    f.set("property", H.property);
-    f.set("why", failWhy);
-    f.set("case", caseToJson(failCase));
-    js::writeFile(failPath, js::dump(f));
-  }
-  if (!outPath.empty()) {
-    js::Value o = js::Value::object();
-    o.set("property", H.property);
-    o.set("part", part->name);
-    o.set("mode", mode);
-    o.set("cases", ST.cases);
-    o.set("discards", ST.discards);
-    o.set("evaluations", ST.evaluations);
-    o.set("nontrivial", ST.nontrivial);
-    o.set("exhaustive", exhaustive);
-    o.set("failed", failed);
-    o.set("why", failWhy);
-    o.set("wall_s", wall);
-    js::Value cs = js::Value::object();
-    for (auto& kv : ST.counters) cs.set(kv.first, kv.second);
-    o.set("counters", cs);
-    js::Value kn = js::Value::object();
-    for (auto& kv : ST.known) kn.set(kv.first, kv.second);
-    o.set("known", kn);
-    js::Value sm = js::Value::array();
-    for (auto& s : ST.samples) sm.push(js::parse(s));
-    o.set("samples", sm);
-    js::Value hs = js::Value::array();
-    for (auto h : ST.ntHashes) { char b[20]; snprintf(b, sizeof b, "%016" PRIx64, h); hs.push(std::string(b)); }
-    o.set("nt_hashes", hs);
-    js::writeFile(outPath, js::dump(o));
-  }
-  return failed ? 1 : 0;
+  return finish();
 }
